@@ -152,14 +152,18 @@ Cosine(a, b) ==
 -----------------------------------------------------------------------------
 (* Scalar functions (README table) *)
 
+\* upper/lower are documented for ASCII case; text with other letters is unmodelled, binary text (bytes
+\* that can never occur in UTF-8) keeps every non-letter byte
+CaseMappable(s) == (\A i \in 1..Len(s) : s[i] < 128) \/ (\E i \in 1..Len(s) : s[i] \in {192, 193} \cup (245..255))
+
 EvalCall(f, vs, p) ==
   IF AnyBad(vs) THEN Worst(vs)
   ELSE LET n == Len(vs)
            a1 == IF n >= 1 THEN vs[1] ELSE VUnspec
            a2 == IF n >= 2 THEN vs[2] ELSE VUnspec
            a3 == IF n >= 3 THEN vs[3] ELSE VUnspec
-  IN CASE f = "lower" /\ n = 1 -> IF a1.t = "s" THEN VStr(Lower(a1.s)) ELSE VUnspec
-       [] f = "upper" /\ n = 1 -> IF a1.t = "s" THEN VStr(Upper(a1.s)) ELSE VUnspec
+  IN CASE f = "lower" /\ n = 1 -> IF a1.t = "s" /\ CaseMappable(a1.s) THEN VStr(Lower(a1.s)) ELSE VUnspec
+       [] f = "upper" /\ n = 1 -> IF a1.t = "s" /\ CaseMappable(a1.s) THEN VStr(Upper(a1.s)) ELSE VUnspec
        [] f = "int" /\ n = 1 ->
             CASE a1.t = "i" -> a1
               [] a1.t = "f" -> IF a1.d = 0 THEN VInt(a1.n) ELSE VUnspec
